@@ -102,6 +102,19 @@ def step (s : St) (line : String) : St × String :=
       let evs := if p2pAdmit (oracleOf o) s.proposer sh then [Event.hdr sh s.n.daHeight] else []
       (s, s!"p2p events={showEvents evs}")
     | _ => (s, "undecodable")
+  | "p2plib" =>
+    let tr : Option (Option SignedHeader) :=
+      if o.str "trusted" = "-" || o.str "trusted" = "" then some none
+      else match headerStage { keyOk := o.bool "tkeyok", hdrSigOk := false, dataSigOk := false } (o.bytes "trusted") with
+        | .ok t => some (some t)
+        | _ => none
+    match tr with
+    | none => (s, "bad-trusted")
+    | some t =>
+      let v := match p2pLibAdmit (oracleOf o) t (o.bytes "blob") with
+        | .accepted => "accepted" | .rejDecode => "rejected:decode"
+        | .rejValidate => "rejected:validate" | .rejVerify => "rejected:verify"
+      (s, s!"p2plib {v}")
   | "flood" =>
     let da := o.nat "da"
     let entry := (da, o.bytes "blob", oracleOf o)
